@@ -200,8 +200,10 @@ package hotspot
 //@   ensures[a-rule-without-specific-items-equals-its-reloaded-copy] len(r.SpecificItems) == 0 && len(newRule.SpecificItems) == 0 && r.Resource == newRule.Resource && r.MetricType == newRule.MetricType && r.ControlBehavior == newRule.ControlBehavior && r.ParamsMaxCapacity == newRule.ParamsMaxCapacity && r.ParamIndex == newRule.ParamIndex && r.ParamKey == newRule.ParamKey && r.Threshold == newRule.Threshold && r.DurationInSec == newRule.DurationInSec && r.BurstCount == newRule.BurstCount && r.MaxQueueingTimeMs == newRule.MaxQueueingTimeMs && (r.ControlBehavior == Reject || r.ControlBehavior == Throttling) ==> res
 //@   modifies nothing
 
+// (under C05 and C06 too: taking over the counters of a rule with another metric type, parameter or duration lets one
+// rule's per-value state shape another rule's traffic)
 //@ func (r *Rule) IsStatReusable(newRule) res
-//@   props C14
+//@   props C14, C05, C06
 //@   requires r != nil && newRule != nil
 //@   ensures[def] res <==> statReusable(r, newRule)
 //@   modifies nothing
